@@ -213,3 +213,16 @@ def check_only_kwargs_two_calls_mixed(vals: Tuple[int, int, int], vals2: Tuple[i
     first = w(**{NAMES[i]: vals[i] for i in perm})
     second = w(**{NAMES[i]: vals2[i] for i in perm2})
     return (first, second)
+
+
+def check_allow_args_two_calls(vals: Tuple[int, int, int], vals2: Tuple[int, int, int], npos: int, perm: Tuple[int, int, int]) -> Tuple[Tuple[int, int, int], Tuple[int, int, int]]:
+    """
+    one allow_args wrapper object: a call with npos positional arguments and keyword order perm, then
+    a call with keywords only in reversed order
+    pre: sorted(perm) == [0, 1, 2] and 0 <= npos <= 3
+    post: _ == (vals, vals2)
+    """
+    w = allow_args(_f_kwonly)
+    first = w(*[vals[i] for i in range(npos)], **{NAMES[i]: vals[i] for i in perm if i >= npos})
+    second = w(**{NAMES[i]: vals2[i] for i in (2, 1, 0)})
+    return (first, second)
